@@ -17,7 +17,9 @@ CLAIMED = {
               'on mp/clone/iv/fp x crash points (callback raises, k-th internal library function raises, generator closed/dropped, '
               'with-body raises, step budget) x starting precisions (mostly not images of an integer dps). Oracle: an independent '
               'reference model of (prec, dps) per context checked after every step and inside manager bodies, plus effective == '
-              'reported precision. Every run is executed fault-free (pass A) and fault-injected (pass B). Exploration level: '
+              'reported precision. Every run is executed fault-free (pass A) and fault-injected (pass B); 25% of the runs sweep ten '
+              'consecutive catalogue entries at non-image precisions and 15% enumerate the crash points of one operation on an even '
+              'grid (<= 32 internal entries with rotating exception types, <= 12 callback invocations). Exploration level: '
               'sampling, with distinct (entry point, fault site) pairs reported.'),
         note=('Trusted: the precision model transcription (simkit/model.py), sys.monitoring fault delivery, the in-process pristine '
               'restore (validated against fork isolation by selftest/determinism.py; every violation is re-confirmed in a freshly '
@@ -35,7 +37,9 @@ CLAIMED = {
     'C33': dict(
         text=('Seeded search over histories of evaluations at random precisions, matrix mutations, context switches and calls aborted by '
               'line-granular interrupts / raising callbacks / re-entrant callbacks, followed by probes compared with the same probe in the '
-              'pristine state (tolerance classes from the accuracy properties, exact equality for exact classes).'),
+              'pristine state (tolerance classes from the accuracy properties, exact equality for exact classes). 20% of the runs '
+              'enumerate the crash points of one operation: an interrupt right after every state-mutating line it executes (first and '
+              'last occurrence, <= 40 lines), each followed by the same call again and by probes.'),
         note='Trusted: pristine restore = state of a new interpreter (validated by selftest/determinism.py and fork confirmation); mpmath judges itself across histories (not an accuracy oracle).',
         technique='deterministic simulation of call histories with crash-point injection; pristine-state differential oracle',
         design='DESIGN.md section 3 C33'),
